@@ -26,9 +26,10 @@ MANIFEST = dict(
          "generated streams x chunkings x label options; the policy-free specification decides the property on "
          "the real code's stdio calls.",
     design_ref="DESIGN.md section 5 C05",
-    note="Lean 4.33 kernel; axioms propext/Classical.choice/Quot.sound at most; theorems are about the relay over "
-         "the FIFO specification plus cbuf.c's request/growth policy; that the index-level cbuf model (and cbuf.c) "
-         "refine it is C13's statement and is exercised here by running both instances against the real code; "
+    note="Lean 4.33 kernel; axioms propext/Classical.choice/Quot.sound at most; theorems are stated for the relay over "
+         "the FIFO specification plus cbuf.c's request/growth policy AND, through the proved simulation "
+         "Relay/IndexSim.lean (on C13's refinement lemmas), for the relay over the index-level model of cbuf.c that "
+         "is executed against the real code; "
          "kernel delivery, poll loop and threads are exercised by real runs, not modelled; -S/-k streams (marker) "
          "are outside the domain (C08)")
 
